@@ -1558,4 +1558,194 @@ theorem removeModel_find {c : Cache} (h : Inv c) (m id : Nat) {a : Asset} (hf : 
       rw [hf] at ha0; cases ha0; exact hm hm0
     · rw [hf]; unfold afterRemove; simp [hm]
 
+/-! ### the lists that stand for sets have no duplicates (`references_`, the keys of `models_`) -/
+
+structure Rep (c : Cache) : Prop where
+  refs_nodup : ∀ a ∈ c.assets, a.refs.Nodup
+  keys_nodup : (c.models.map (·.1)).Nodup
+
+theorem not_mem_keys_of_not_hasKey {ms : List (Nat × List Nat)} {m : Nat} (h : hasKey ms m = false) :
+    m ∉ ms.map (·.1) := by
+  induction ms with
+  | nil => simp
+  | cons p ps ih =>
+    rw [hasKey_cons] at h
+    simp at h
+    simp only [List.map_cons, List.mem_cons, not_or]
+    exact ⟨fun e => h.1 e.symm, ih h.2⟩
+
+theorem keys_mapKey (ms : List (Nat × List Nat)) (m : Nat) (g : List Nat → List Nat) :
+    (ms.map (fun p => if p.1 = m then (p.1, g p.2) else p)).map (·.1) = ms.map (·.1) := by
+  induction ms with
+  | nil => rfl
+  | cons p ps ih =>
+    simp only [List.map_cons, ih]
+    by_cases h : p.1 = m <;> simp [h]
+
+theorem keys_msInsert {ms : List (Nat × List Nat)} (h : (ms.map (·.1)).Nodup) (m id : Nat) :
+    ((msInsert ms m id).map (·.1)).Nodup := by
+  unfold msInsert
+  by_cases hk : hasKey ms m = true
+  · simp only [hk, if_true]; rw [keys_mapKey]; exact h
+  · have hk' : hasKey ms m = false := by simpa using hk
+    simp only [hk', Bool.false_eq_true, if_false, List.map_append, List.map_cons, List.map_nil]
+    refine List.nodup_append.mpr ⟨h, by simp, ?_⟩
+    intro a ha b hb
+    simp at hb; subst hb
+    intro e; exact not_mem_keys_of_not_hasKey hk' (e ▸ ha)
+
+theorem keys_msErase {ms : List (Nat × List Nat)} (h : (ms.map (·.1)).Nodup) (m id : Nat) :
+    ((msErase ms m id).map (·.1)).Nodup := by
+  unfold msErase
+  by_cases hk : hasKey ms m = true
+  · simp only [hk, if_true]; rw [keys_mapKey]; exact h
+  · have hk' : hasKey ms m = false := by simpa using hk
+    simp only [hk', Bool.false_eq_true, if_false, List.map_append, List.map_cons, List.map_nil]
+    refine List.nodup_append.mpr ⟨h, by simp, ?_⟩
+    intro a ha b hb
+    simp at hb; subst hb
+    intro e; exact not_mem_keys_of_not_hasKey hk' (e ▸ ha)
+
+theorem keys_eraseRefs (refs : List Nat) (skip : Option Nat) (id : Nat) :
+    ∀ {ms : List (Nat × List Nat)}, (ms.map (·.1)).Nodup → ((eraseRefs ms refs skip id).map (·.1)).Nodup := by
+  induction refs with
+  | nil => intro ms h; exact h
+  | cons r rs ih =>
+    intro ms h
+    have e : eraseRefs ms (r :: rs) skip id = eraseRefs (if some r = skip then ms else msErase ms r id) rs skip id := rfl
+    rw [e]
+    apply ih
+    split
+    · exact h
+    · exact keys_msErase h r id
+
+theorem keys_msDrop {ms : List (Nat × List Nat)} (h : (ms.map (·.1)).Nodup) (m : Nat) :
+    ((msDrop ms m).map (·.1)).Nodup := by
+  unfold msDrop
+  exact h.sublist (List.filter_sublist.map _)
+
+theorem rep_amap {c : Cache} (h : Rep c) (id : Nat) (f : Asset → Asset) (hf : ∀ a, a.refs.Nodup → (f a).refs.Nodup) :
+    Rep { c with assets := amap c.assets id f } := by
+  refine ⟨?_, h.keys_nodup⟩
+  intro b hb
+  obtain ⟨a, ha, rfl⟩ := mem_amap.mp hb
+  by_cases hid : a.id = id
+  · simp only [hid, if_true]; exact hf a (h.refs_nodup a ha)
+  · simp only [hid, if_false]; exact h.refs_nodup a ha
+
+theorem rep_deleteCore {c : Cache} (h : Rep c) (a : Asset) (skip : Option Nat) : Rep (deleteCore c a skip) := by
+  refine ⟨?_, ?_⟩
+  · intro b hb
+    exact h.refs_nodup b (mem_aerase.mp hb).1
+  · rw [deleteCore_models]; exact keys_eraseRefs _ _ _ h.keys_nodup
+
+theorem rep_trimN : ∀ (fuel : Nat) (c : Cache), Rep c → Rep (trimN fuel c) := by
+  intro fuel
+  induction fuel with
+  | zero =>
+    intro c h; simp only [trimN]
+    split
+    · exact ⟨h.refs_nodup, h.keys_nodup⟩
+    · exact h
+  | succ n ih =>
+    intro c h; simp only [trimN]
+    split
+    · cases minAsset c.assets with
+      | none => exact ⟨h.refs_nodup, h.keys_nodup⟩
+      | some a => exact ih _ (rep_deleteCore h a none)
+    · exact h
+
+theorem rep_foldl (stepf : Cache → Nat → Cache) (hs : ∀ c x, Rep c → Rep (stepf c x)) :
+    ∀ (l : List Nat) (c : Cache), Rep c → Rep (l.foldl stepf c) := by
+  intro l
+  induction l with
+  | nil => intro c h; exact h
+  | cons x xs ih => intro c h; exact ih _ (hs c x h)
+
+theorem rep_removeRefStep (m : Nat) (c : Cache) (id : Nat) (h : Rep c) : Rep (removeRefStep m c id) := by
+  cases hf : find c.assets id with
+  | none =>
+    have : removeRefStep m c id = { c with ub := true } := by unfold removeRefStep; rw [hf]
+    rw [this]; exact ⟨h.refs_nodup, h.keys_nodup⟩
+  | some a =>
+    rw [removeRefStep_eq hf]
+    have h1 : Rep { c with assets := amap c.assets id (fun x => { x with refs := setErase m x.refs }) } :=
+      rep_amap h id _ (fun _ hx => nodup_setErase hx)
+    split
+    · exact rep_deleteCore h1 _ _
+    · exact h1
+
+theorem rep_resetStep (m : Nat) (c : Cache) (id : Nat) (h : Rep c) : Rep (resetStep m c id) := by
+  unfold resetStep
+  cases find c.assets id with
+  | none => exact ⟨h.refs_nodup, h.keys_nodup⟩
+  | some a => exact rep_deleteCore h a (some m)
+
+theorem rep_step {c : Cache} (h : Rep c) (op : Op) : Rep (step c op).1 := by
+  cases op with
+  | insert m id ts d sz =>
+    show Rep (insert c m id ts d sz).1
+    unfold insert
+    cases hf : find c.assets id with
+    | none =>
+      simp only []
+      split
+      · exact h
+      · refine ⟨?_, keys_msInsert h.keys_nodup m id⟩
+        intro b hb
+        rcases List.mem_append.mp hb with hb | hb
+        · exact h.refs_nodup b hb
+        · simp at hb; subst hb; simp
+    | some a =>
+      simp only []
+      split
+      · exact h
+      · split
+        · have := rep_amap h id (fun x => { x with refs := setInsert m x.refs }) (fun _ hx => nodup_setInsert hx)
+          exact ⟨this.refs_nodup, keys_msInsert h.keys_nodup m id⟩
+        · have := rep_amap h id (fun x => { x with refs := setInsert m x.refs, ts := ts, size := sz, data := d })
+            (fun _ hx => nodup_setInsert hx)
+          exact ⟨this.refs_nodup, keys_msInsert h.keys_nodup m id⟩
+  | populate id rts =>
+    show Rep (populate c id rts).1
+    unfold populate
+    cases hf : find c.assets id with
+    | none => exact h
+    | some a =>
+      simp only []
+      split
+      · exact h
+      · exact rep_amap h id _ (fun _ hx => hx)
+  | hasAsset id => exact h
+  | deleteAsset id =>
+    show Rep (deleteAsset c id)
+    unfold deleteAsset
+    cases find c.assets id with
+    | none => exact h
+    | some a => exact rep_deleteCore h a none
+  | removeModel m =>
+    show Rep (removeModel c m)
+    unfold removeModel
+    have := rep_foldl _ (rep_removeRefStep m) (msGet c.models m) c h
+    exact ⟨this.refs_nodup, keys_msDrop this.keys_nodup m⟩
+  | resetModel m =>
+    show Rep (resetModel c m)
+    unfold resetModel
+    have := rep_foldl _ (rep_resetStep m) (msGet c.models m) c h
+    exact ⟨this.refs_nodup, keys_msDrop this.keys_nodup m⟩
+  | resetAll =>
+    show Rep (resetAll c)
+    exact ⟨by intro a ha; simp [resetAll] at ha, by simp [resetAll]⟩
+  | setCapacity n =>
+    show Rep (trimN _ { c with capacity := n })
+    exact rep_trimN _ _ ⟨h.refs_nodup, h.keys_nodup⟩
+
+theorem rep_run' : ∀ (ops : List Op) (c : Cache), Rep c → Rep (run c ops) := by
+  intro ops
+  induction ops with
+  | nil => intro c h; exact h
+  | cons op rest ih => intro c h; exact ih _ (rep_step h op)
+
+theorem rep_empty (cap : Nat) : Rep (empty cap) := ⟨by simp [empty], by simp [empty]⟩
+
 end MjProof.Cache
